@@ -641,7 +641,7 @@ def _t(ctx, label):
 
 
 def run(ctx):
-    ctx.build(FILES)
+    ctx.build_with_translator(FILES)
     _t(ctx, 'build')
     quick = ctx.tier == 'quick'
     ctx.level = 'proof'
